@@ -1697,9 +1697,9 @@ func main() {
 			rounds = 20
 		}
 		explicitFamily(rng.Fork("explicit"), rounds, corr)
-		widths := []int{5, 10}
+		widths := []int{5, 10, 20} // a run of 2g-1 digits contains a group aligned for ANY grouping by g digits: 20 covers g <= 10
 		if !quick {
-			widths = []int{5, 10, 15, 20}
+			widths = []int{5, 10, 15, 20, 30}
 		}
 		zeroGroupFamily(rng.Fork("zerogroups"), rounds, widths, corr)
 	}
